@@ -687,15 +687,20 @@ fn metrics_body(p: &MetricParams) {
     }
     let value = |t: usize, seq: usize| p.recorders[t][seq] as f64 * 0.25;
     let total: usize = p.recorders.iter().map(|r| r.len()).sum();
+    // "counter jump": the metric started as if `c0` measurements averaging 0.0 had been recorded before
+    let c0 = p.sched.metric_origin as usize;
+    if c0 != 0 {
+        ctx::fault_fired("metric_counter_jump");
+    }
     let scale = p.recorders.iter().flatten().map(|q| (*q as f64 * 0.25).abs()).fold(1.0f64, f64::max);
     let tol = 2e-4 * scale;
     // final reading
     let (count, average) = metric.0.probe();
-    if count as usize != total {
-        ctx::report("C19", "count", key("count"), format!("{} measurements were recorded, the counter says {}", total, count));
+    if count as usize != c0 + total {
+        ctx::report("C19", "count", key("count"), format!("{} measurements were recorded (the counter started at {}), the counter says {}", total, c0, count));
     }
-    let mean_all = if total == 0 { 0.0 } else { p.recorders.iter().enumerate().flat_map(|(t, r)| (0..r.len()).map(move |s| (t, s))).map(|(t, s)| value(t, s)).sum::<f64>() / total as f64 };
-    if count as usize == total && (average as f64 - mean_all).abs() > tol {
+    let mean_all = if c0 + total == 0 { 0.0 } else { p.recorders.iter().enumerate().flat_map(|(t, r)| (0..r.len()).map(move |s| (t, s))).map(|(t, s)| value(t, s)).sum::<f64>() / (c0 + total) as f64 };
+    if count as usize == c0 + total && (average as f64 - mean_all).abs() > tol {
         ctx::report("C19", "average", key("average"), format!("the final average is {} but the arithmetic mean of the {} recorded measurements is {}", average, total, mean_all));
     }
     // every reading taken during the run: a count together with the average that belonged to that count, for some
@@ -713,8 +718,8 @@ fn metrics_body(p: &MetricParams) {
         let mut k = lo.clone();
         'search: loop {
             let c: usize = k.iter().sum();
-            if c == pr.count as usize {
-                let mean = if c == 0 { 0.0 } else { (0..n_t).flat_map(|t| (0..k[t]).map(move |s| (t, s))).map(|(t, s)| value(t, s)).sum::<f64>() / c as f64 };
+            if c0 + c == pr.count as usize {
+                let mean = if c0 + c == 0 { 0.0 } else { (0..n_t).flat_map(|t| (0..k[t]).map(move |s| (t, s))).map(|(t, s)| value(t, s)).sum::<f64>() / (c0 + c) as f64 };
                 let d = (pr.average as f64 - mean).abs();
                 closest = closest.min(d);
                 if d <= tol {
@@ -773,6 +778,12 @@ impl Scenario for Metrics {
             .collect();
         let mut sched = SchedSpec::draw(rng);
         sched.weak_cas = 0;
+        // "counter jump": the metric starts as if many measurements (averaging 0.0) had been recorded before -- around the
+        // powers of two where an f32 / u32 slip would show (never next to the documented reset at u32::MAX)
+        if rng.chance(1, 4) {
+            let base: u32 = *rng.pick(&[1 << 8, 1 << 16, 1 << 23, 1 << 24, 1 << 24, 1 << 25, 1 << 31, 1_000_000, 3_000_000_000]);
+            sched.metric_origin = base - rng.below(14) as u32;
+        }
         MetricParams { sched, recorders, probes: rng.below(6) as u32 }
     }
     fn sched<'a>(&self, p: &'a MetricParams) -> &'a SchedSpec {
